@@ -16,6 +16,8 @@ from .. import uscan
 
 def run(ctx):
     model = ctx.model
+    from . import unitspec as _us
+    _us.api_verified(ctx, 'C15.R3')
     fi = model.func('Recipe.get_container_flows')
     ff = ctx.flow(fi.qualname)
     # ---------------------------------------------------------------- R1 polarity of in / out
@@ -101,6 +103,35 @@ def run(ctx):
                 ctx.ob('C15.R1', fi, stmt.lineno, "inflow is not credited on a step that discards material", bool(g),
                        fact=str(g[0]) if g else 'no test on step.trash', why='a removal is counted as (negative) inflow',
                        key='inflow on remove step')
+    # the totals are sums over the steps: they are rounded once, after the loop (rounding the running totals in every
+    # iteration drops every flow below the display precision)
+    step_loops = [l for l in walk_no_nested(fi.node) if isinstance(l, ast.For) and id(l) in ff.resolved and
+                  any(isinstance(n, ast.Subscript) and path_from_param(n.value) == ('self', ['steps'])
+                      for n in deep_walk(ff.resolved[id(l)]))]
+    acc_roots = set()
+    for l in step_loops:
+        for n in ast.walk(l):
+            if isinstance(n, ast.AugAssign):
+                t = n.target
+                while isinstance(t, (ast.Subscript, ast.Attribute)):
+                    t = t.value
+                if isinstance(t, ast.Name):
+                    acc_roots.add(t.id)
+    for l in step_loops:
+        bad = []
+        for n in ast.walk(l):
+            if isinstance(n, ast.Call) and ((isinstance(n.func, ast.Name) and n.func.id == 'round' and n.args) or
+                                            (isinstance(n.func, ast.Attribute) and n.func.attr == 'round')):
+                tgt = n.args[0] if isinstance(n.func, ast.Name) else n.func.value
+                names = {x.id for x in ast.walk(tgt) if isinstance(x, ast.Name)}
+                if names & acc_roots:
+                    bad.append(n)
+        ctx.ob('C15.R1', fi, (bad[0].lineno if bad else l.lineno), 'the running totals are not rounded inside the loop over the steps',
+               not bad, fact=f"{len(bad)} rounding(s) of {sorted(acc_roots)} inside the loop",
+               why='flows smaller than the display precision vanish step by step: in - out no longer balances with the '
+                   'amount remaining', key='running totals rounded per step')
+    from .c09 import per_instance_state
+    per_instance_state(ctx, 'C15.R4')
     # get_amount_remaining: mode/index agreement
     gi = model.func('Recipe.get_amount_remaining')
     gf = ctx.flow(gi.qualname)
